@@ -30,19 +30,32 @@ Obj(k, cls, keys, e, ast, env) == [k |-> k, cls |-> cls, keys |-> keys, e |-> e,
 NoAst == [k |-> "none"]
 
 M0 == [cells |-> <<>>, objs |-> <<>>, frames |-> << << <<>> >> >>, globals |-> <<>>, funs |-> <<>>, classes |-> <<>>,
-       out |-> <<>>, err |-> "", fuel |-> 400]
+       out |-> <<>>, err |-> "", fuel |-> 400, ast |-> <<>>]
 R(M, ctl, d) == [M |-> M, ctl |-> ctl, d |-> d]
 Err(M, cls) == R([M EXCEPT !.err = cls], "err", 0)
 Norm(M, d) == R(M, "norm", d)
 
-NewCell(M, v, c) == [M EXCEPT !.cells = Append(@, [v |-> v, c |-> c])]
+\* a cell: value, const flag, and the "return value" flag a value returned BY VALUE from a C++ function carries until it is bound to a name
+\* (Boxed_Value::is_return_value): such a temporary cannot be the target of an assignment ("cannot assign to temporary value")
+NewCell(M, v, c) == [M EXCEPT !.cells = Append(@, [v |-> v, c |-> c, rv |-> FALSE])]
 LastCell(M) == Len(M.cells)
 NewObj(M, o) == [M EXCEPT !.objs = Append(@, o)]
 LastObj(M) == Len(M.objs)
 Val(M, d) == IF d = 0 THEN VVoid ELSE M.cells[d].v
-Temp(M, v) == LET M1 == NewCell(M, v, FALSE) IN Norm(M1, LastCell(M1))     \* a computed temporary (strings, to_string, size)
+Temp(M, v) == LET M1 == [M EXCEPT !.cells = Append(@, [v |-> v, c |-> FALSE, rv |-> TRUE])] IN Norm(M1, LastCell(M1))     \* a computed temporary (strings, to_string, size)
 CTemp(M, v) == LET M1 == NewCell(M, v, TRUE) IN Norm(M1, LastCell(M1))      \* arithmetic / boolean results and inline containers are const temporaries
-Lit(M, v) == LET M1 == NewCell(M, v, TRUE) IN Norm(M1, LastCell(M1))       \* a literal: const
+\* A literal is a const value.  C08: a literal node that carries an identity ("id") owns ONE cell in the syntax tree (M.ast) and every
+\* evaluation of the node hands out that same cell, as Constant_AST_Node::m_value does; "mut" marks a literal whose cell is (wrongly)
+\* not const - the defect class C08 is about, used by the sanity runs.  Literals without identity get a fresh const cell.
+Lit(M, e, v) ==
+  IF "id" \notin DOMAIN e THEN (LET M1 == NewCell(M, v, TRUE) IN Norm(M1, LastCell(M1)))
+  ELSE LET i == SelectInSeq(M.ast, LAMBDA a : a.id = e.id) IN
+       IF i # 0 THEN Norm(M, M.ast[i].d)
+       ELSE LET M1 == NewCell(M, v, ~("mut" \in DOMAIN e /\ e.mut))
+                M2 == [M1 EXCEPT !.ast = Append(@, [id |-> e.id, d |-> LastCell(M1), v |-> v])]
+            IN Norm(M2, LastCell(M1))
+\* C08: no evaluation has changed a literal of the syntax tree
+AstUnchanged(M) == \A i \in 1..Len(M.ast) : M.cells[M.ast[i].d].v = M.ast[i].v
 
 TopFrame(M) == M.frames[Len(M.frames)]
 PushScope(M) == [M EXCEPT !.frames[Len(M.frames)] = Append(@, <<>>)]
@@ -137,7 +150,7 @@ EvArgs(as, i, M, acc) == IF i > Len(as) THEN [M |-> M, ctl |-> "norm", ds |-> ac
 Assign(M, d, v) ==
   IF d = 0 \/ v.t = "void" THEN Err(M, "ee") ELSE
   LET c == M.cells[d] IN
-  IF c.c THEN Err(M, "ee")
+  IF c.c \/ c.rv THEN Err(M, "ee")
   ELSE IF c.v.t = "undef" THEN (LET k == Clone(M, v) IN Norm([k.M EXCEPT !.cells[d].v = k.M.cells[k.d].v], d))
   ELSE IF c.v.t # v.t THEN Err(M, "ee")
   ELSE IF v.t \in {"vec", "map", "obj"} THEN (LET k == Clone(M, v) IN Norm([k.M EXCEPT !.cells[d].v = k.M.cells[k.d].v], d))
@@ -254,9 +267,9 @@ ElseIfs(eis, i, M) ==      \* returns [taken, r]
        ELSE ElseIfs(eis, i + 1, c.M)
 
 Ev(e, M) ==
-  CASE e.k = "int" -> Lit(M, VInt(e.v))
-    [] e.k = "bool" -> Lit(M, VBool(e.v))
-    [] e.k = "str" -> Lit(M, VStr(e.v))
+  CASE e.k = "int" -> Lit(M, e, VInt(e.v))
+    [] e.k = "bool" -> Lit(M, e, VBool(e.v))
+    [] e.k = "str" -> Lit(M, e, VStr(e.v))
     [] e.k = "id" -> (LET d == Lookup(M, e.n) IN IF d = 0 THEN Err(M, "ee") ELSE Norm(M, d))
     [] e.k = "bin" ->
         (LET a == Ev(e.l, M) IN IF a.ctl # "norm" THEN a ELSE
@@ -332,7 +345,8 @@ Ev(e, M) ==
                        IF Val(a.M, a.d).t = "void" THEN Err(a.M, "ee") ELSE
                        LET k == Clone(a.M, Val(a.M, a.d)) IN Norm(Bind(k.M, e.n, k.d), k.d))
     [] e.k = "ref" -> (LET a == Ev(e.e, M) IN IF a.ctl # "norm" THEN a ELSE      \* var &n = e   /   n := e on a fresh name
-                       IF InScope(TopFrame(a.M)[Len(TopFrame(a.M))], e.n) THEN Err(a.M, "ee") ELSE Norm(Bind(a.M, e.n, a.d), a.d))
+                       IF InScope(TopFrame(a.M)[Len(TopFrame(a.M))], e.n) THEN Err(a.M, "ee") ELSE
+                       IF a.d = 0 THEN Norm(Bind(a.M, e.n, a.d), a.d) ELSE Norm(Bind([a.M EXCEPT !.cells[a.d].rv = FALSE], e.n, a.d), a.d))   \* binding a name resets the flag
     [] e.k = "global" -> (LET a == Ev(e.e, M) IN IF a.ctl # "norm" THEN a ELSE    \* global n = e
                           IF FindSeq(a.M.globals, e.n) # 0 THEN Assign(a.M, FindSeq(a.M.globals, e.n), Val(a.M, a.d)) ELSE
                           LET k == Clone(a.M, Val(a.M, a.d)) IN Norm([k.M EXCEPT !.globals = Append(@, <<e.n, k.d>>)], k.d))
@@ -341,6 +355,14 @@ Ev(e, M) ==
     [] e.k = "inc" -> (LET l == Ev(e.l, M) IN IF l.ctl # "norm" THEN l ELSE       \* ++x
                        IF Val(l.M, l.d).t # "int" THEN Err(l.M, "ee") ELSE IF l.M.cells[l.d].c THEN Err(l.M, "ee") ELSE
                        Norm([l.M EXCEPT !.cells[l.d].v = VInt(@.i + 1)], l.d))
+    [] e.k = "casg" -> (LET a == Ev(e.e, M) IN IF a.ctl # "norm" THEN a ELSE      \* x += e, x -= e, x *= e: rhs first; the target must be a non-const cell
+                        LET l == Ev(e.l, a.M) IN IF l.ctl # "norm" THEN l ELSE
+                        LET x == Val(l.M, l.d)  y == Val(l.M, a.d) IN
+                        IF l.d = 0 \/ l.M.cells[l.d].c \/ l.M.cells[l.d].rv THEN Err(l.M, "ee")
+                        ELSE IF x.t = "int" /\ y.t = "int" THEN
+                               (LET v == BinOp(l.M, e.bop, x, y) IN IF v.t = "bad" THEN R(l.M, "fuel", 0) ELSE Norm([l.M EXCEPT !.cells[l.d].v = v], l.d))
+                        ELSE IF x.t = "str" /\ y.t = "str" /\ e.op = "+=" THEN Norm([l.M EXCEPT !.cells[l.d].v = VStr(x.s \o y.s)], l.d)
+                        ELSE Err(l.M, "ee"))
     [] e.k = "out" -> (LET a == Ev(e.e, M) IN IF a.ctl # "norm" THEN a ELSE
                        IF ~Printable(a.M, Val(a.M, a.d)) THEN Err(a.M, "ee") ELSE
                        Norm([a.M EXCEPT !.out = Append(@, ToStr(a.M, Val(a.M, a.d)))], 0))
@@ -376,6 +398,19 @@ Run(prog) == LET r == EvSeq(prog, 1, M0) IN
               oc |-> IF r.ctl = "err" THEN r.M.err ELSE IF r.ctl = "fuel" THEN "fuel" ELSE IF r.ctl \in {"brk", "cont"} THEN "ee" ELSE "val",
               v |-> IF r.ctl \in {"norm", "ret"} /\ r.d # 0 /\ Printable(r.M, Val(r.M, r.d)) THEN TypeName(Val(r.M, r.d)) \o ":" \o ToStr(r.M, Val(r.M, r.d)) ELSE "",
               balanced |-> Len(r.M.frames) = 1 /\ Len(r.M.frames[1]) = 1]
+
+\* C08: a program given as SEGMENTS evaluated one after the other in the same engine (an error ends its segment only: the
+\* engine restores its stacks, C09).  Result per segment, and whether the literals of the tree are still what was parsed.
+RECURSIVE RunSegs(_, _, _, _)
+RunSegs(segs, i, M, acc) ==
+  IF i > Len(segs) THEN acc
+  ELSE LET r == EvSeq(segs[i].b, 1, [M EXCEPT !.out = <<>>, !.err = ""])
+           res == [out |-> r.M.out,
+                   oc |-> IF r.ctl = "err" THEN r.M.err ELSE IF r.ctl = "fuel" THEN "fuel" ELSE IF r.ctl \in {"brk", "cont"} THEN "ee" ELSE "val",
+                   v |-> IF r.ctl \in {"norm", "ret"} /\ r.d # 0 /\ Printable(r.M, Val(r.M, r.d)) THEN TypeName(Val(r.M, r.d)) \o ":" \o ToStr(r.M, Val(r.M, r.d)) ELSE "",
+                   astok |-> AstUnchanged(r.M)]
+           Mn == [r.M EXCEPT !.frames = << << r.M.frames[1][1] >> >>]
+       IN RunSegs(segs, i + 1, Mn, Append(acc, res))
 
 Progs == ndJsonDeserialize(IOEnv.IN)
 Export == ndJsonSerialize(IOEnv.OUT, [i \in 1..Len(Progs) |-> [id |-> Progs[i].id, expect |-> Run(Progs[i].prog)]])
